@@ -2,6 +2,7 @@
 # Rebuilds the checker from /repo's current working tree and runs one check.
 #   bin/check.sh <property> <quick|thorough>
 #   bin/check.sh --replay <file>
+#   bin/check.sh --replay-test [file]   (the same as a plain `go test`, no explorer; default: all of replays/)
 #   bin/check.sh --build            (setup: pre-build only)
 # Exit codes: 0 = held on everything explored, 1 = VIOLATION line printed.
 set -u
@@ -53,6 +54,10 @@ build() {
 case "${1:-}" in
   --build) build || exit 2; exit 0 ;;
   --replay) build || exit 2; "$BIN" -replay "$2"; exit $? ;;
+  --replay-test)
+    [ -n "${2:-}" ] && export VERIF_REPLAY="$2"
+    if overlay; then go test $MODFLAG -vet=off -count=1 -tags verif -overlay "$OV/overlay.json" -run TestReplay -v ./replaytest; else go test $MODFLAG -vet=off -count=1 -run TestReplay -v ./replaytest; fi
+    [ $? -eq 0 ] && exit 0 || exit 1 ;;
   "") echo "usage: $0 <property> <quick|thorough> | --replay <file> | --build" >&2; exit 2 ;;
 esac
 build || exit 2
